@@ -346,11 +346,15 @@ func c08One(t *testing.T, run *c08Run) {
 	status := "ok"
 	var sched []string
 	var fault rt.M
+	hist := map[string][][2]string{}
 	doStep := func(tk *rt.Task) bool {
 		label, kind, arg := tk.Label, tk.Kind, tk.Arg
 		step++
 		ok := s.Step(tk)
 		sched = append(sched, tk.Name)
+		if tk.State == rt.Ready {
+			hist[tk.Name] = append(hist[tk.Name], [2]string{tk.Label, tk.Kind})
+		}
 		p := w.project()
 		p["i"], p["t"], p["label"], p["op"], p["arg"] = step, tk.Name, label, kind, filepath.Base(arg)
 		emit("obs", p)
@@ -403,6 +407,36 @@ func c08One(t *testing.T, run *c08Run) {
 			var f int
 			fmt.Sscanf(e[7:], "%d", &f)
 			doArrive(f)
+			continue
+		}
+		if i := strings.Index(e, ">>"); i > 0 {
+			// "task>>fn|kind|k": run the task until it has been suspended k times (over its whole
+			// life) in front of a call `kind` made from a function whose call chain contains fn,
+			// and stands in front of one now ("done|x|1": until it ends)
+			tk := s.Task(e[:i])
+			parts := strings.Split(e[i+2:], "|")
+			if tk == nil || len(parts) < 3 {
+				continue
+			}
+			want := 1
+			fmt.Sscanf(parts[2], "%d", &want)
+			for n := 0; n < 400 && alive && s.Runnable(tk); n++ {
+				seen := 0
+				for _, h := range hist[tk.Name] {
+					if strings.Contains(h[0], parts[0]) && h[1] == parts[1] {
+						seen++
+					}
+				}
+				if seen >= want && strings.Contains(tk.Label, parts[0]) && tk.Kind == parts[1] {
+					break
+				}
+				if !doStep(tk) {
+					alive = false
+				}
+			}
+			if !alive {
+				break
+			}
 			continue
 		}
 		tk := s.Task(e)
